@@ -2,7 +2,7 @@
    bool/option/unit/list/prod/sumbool map to OCaml's own types; Z, N, positive and nat stay
    Coq's inductive types.  No Extract Constant / Extract Inductive directive of our own. *)
 From Coq Require Import Extraction ExtrOcamlBasic.
-From Suiron Require Import Model.Str Model.Float Model.Term Model.Subst Model.Compare Model.Arith Model.Show Model.Lists Model.Unify Model.Builtins Model.Rename Model.Solve Model.Api Model.Timer Spec.SpecSolve Spec.SpecLazy Spec.SpecCut Model.Reader Spec.SpecLoad Model.Tokenizer Model.ParseRule Model.ShowGoal Model.ParseTerm Model.ParseGoal.
+From Suiron Require Import Model.Str Model.Float Model.Term Model.Subst Model.Compare Model.Arith Model.Show Model.Lists Model.Unify Model.Builtins Model.Rename Model.Solve Model.Api Model.Timer Spec.SpecSolve Spec.SpecLazy Spec.SpecCut Model.Reader Spec.SpecLoad Model.Tokenizer Model.ParseRule Model.ShowGoal Model.ShowKb Model.ParseTerm Model.ParseGoal.
 Extraction Language OCaml.
 Extraction "model.ml"
   Z.add Z.mul Z.opp Z.of_N N.add N.mul N.of_nat Nat.add Z.compare N.compare
@@ -16,5 +16,5 @@ Extraction "model.ml"
   world0 api_make_query api_parse_query api_parse_rule goal_get_ground_term op_len op_get_subgoal tinit tstep tobs make_base_node make_node next solve solve_all query_stopped count_rules format_solution
   sem query_events answers_of output_of answers canswers
   strip_comments_at strip_comments check_last_char trim_error_line unmatched_bracket separate_rules read_facts_and_rules load_kb_from_file render legal wf_text expected
-  tokenize token_tree generate_goal index_of_neck parse_rule show_goal show_rule show_infix
+  tokenize token_tree generate_goal index_of_neck parse_rule show_goal show_rule show_infix format_kb format_ss
   parse_term parse_arguments parse_linked_list parse_complex parse_function parse_query parse_subgoal check_infix check_arithmetic_infix make_logic_var check_quotes indices_of_parentheses parse_i64 parse_f64.
